@@ -24,6 +24,7 @@ func runC05(c *core.Ctx) {
 	c.RuleDoc("R05.2", "path fields in the caller's namespace; inner/OS-namespace errors translated with the right pair")
 	c.RuleDoc("R05.3", "mount translator is expansive")
 	c.RuleDoc("R05.10", "a two-name helper translates its delegate's error with both of the caller's names")
+	c.RuleDoc("R05.14", "no helper falls back to io/fs.ReadDir (its not-implemented error matches no sentinel)")
 	c.RuleDoc("R05.13", "where the parent of a name was looked up and is not a directory the failure matches ErrNotDir")
 	c.RuleDoc("R05.12", "a failing path above a view's base (or the OS root) is reported as \".\"")
 	c.RuleDoc("R05.11", "the mount error translator compares the failing path only within its own namespace")
@@ -67,6 +68,7 @@ func runC05(c *core.Ctx) {
 		r05NamespaceTyped(c, p)
 		r05AncestorsOfTheRoot(c, p)
 		r05ParentNotDirSaysSo(c, p)
+		r05NoStdlibListingFallback(c, p)
 		if p.Target == load.Linux {
 			r05NotDirThroughFile(c, p, "R05.7")
 		}
@@ -82,6 +84,7 @@ func runC05(c *core.Ctx) {
 	c.Floor("R05.11", 2)
 	c.Floor("R05.12", 2)
 	c.Floor("R05.13", 2)
+	c.Floor("R05.14", 1)
 }
 
 func nameParamIdx(fn *ssa.Function) []int {
@@ -1134,4 +1137,21 @@ func r05ParentNotDirSaysSo(c *core.Ctx, p *load.Program) {
 				fmt.Sprintf("%s: where the parent of the name exists and is not a directory the call fails with %s instead of ErrNotDir: a path through a regular file is reported like a missing one (os: ENOTDIR, which does not match ErrNotExist)", fname(fn), info))
 		}
 	}
+}
+
+// r05NoStdlibListingFallback (R05.14): the helpers of the root package never hand a listing to io/fs.ReadDir. For a
+// file system whose directory handles have no ReadDir method io/fs answers &PathError{Err: errors.New("not
+// implemented")}, which matches no sentinel: "an operation the file system does not support fails with
+// ErrNotImplemented" needs the hand-written last resort.
+func r05NoStdlibListingFallback(c *core.Ctx, p *load.Program) {
+	bad := ""
+	for _, fn := range pkgFuncs(p, "") {
+		ssax.Instrs(fn, func(ins ssa.Instruction) {
+			if cl, ok := ins.(*ssa.Call); ok && (ssax.CalleeIs(cl, "io/fs", "ReadDir") || ssax.CalleeIs(cl, "io/fs", "Glob")) && bad == "" {
+				bad = fname(fn) + " at " + p.Pos(cl.Pos())
+			}
+		})
+	}
+	c.Check(bad == "", "R05.14", "hackpadfs|no-io/fs.ReadDir-fallback", "-", "no helper falls back to io/fs.ReadDir",
+		fmt.Sprintf("%s hands the listing to io/fs.ReadDir: over a file system whose directory handles cannot list, the failure is io/fs's untyped 'not implemented' error, which does not match ErrNotImplemented", bad))
 }
